@@ -14,12 +14,15 @@ CONSTANTS
  MaxClose = 1000
  MaxInval = 1000
  MaxCompact = 1000
+ MaxBatch = 1000
  FixRelease = TRUE
  DevReleaseRace = FALSE
  DevPutIfOwnerOther = FALSE
  DevReacqBlind = FALSE
  DevDropSameRev = FALSE
  DevNoReload = FALSE
+ DevLoadMerge = FALSE
+ DevPutsFirst = FALSE
  FixRev = TRUE
  KeepHist = TRUE
 INIT TInit
